@@ -60,6 +60,16 @@ int main(int argc, char **argv) {
         v_emit_bytes("srx", b, 32); fputc(',', v_out); v_emit_bytes("stx", b + 32, 32); fprintf(v_out, ",\"ret_c\":%d,\"ret_s\":%d}\n", rc, rs); }
     for (int i = 0; i < 2 + nrand / 16; i++) { unsigned char pk[32], sk[32], sd[32]; vrng_bytes(&R, sd, 32); crypto_box_seed_keypair(pk, sk, sd);
         fprintf(v_out, "{\"op\":\"box_seed_keypair\","); v_emit_bytes("seed", sd, 32); fputc(',', v_out); v_emit_bytes("pk", pk, 32); fputc(',', v_out); v_emit_bytes("sk", sk, 32); fprintf(v_out, "}\n"); }
+    /* results that differ from the all-zero encoding in a single byte: the zero test must look at every byte. With
+     * k = 1 + 3 * l' (l' = prime order of the twist; k is invariant under clamping) X25519(k, u) = u for every u in the
+     * twist's prime-order subgroup; for each byte position the first u = kk * 2^(8j) with that property is recorded. */
+    { static const char *kfix = "58083dd261ad91eff952322ec824c682ffffffffffffffffffffffffffffff5f"; unsigned char kk_[32], uu[32], qq[32];
+      hexto(kfix, kk_);
+      for (int j = 0; j < 32; j += (nrand >= 200 ? 1 : (j < 28 ? 7 : 1))) { int hit = 0;
+          for (int v = 1; v < (j == 31 ? 128 : 256) && !hit; v++) { memset(uu, 0, 32); uu[j] = (unsigned char) v;
+              memset(qq, 0xcc, 32); (void) crypto_scalarmult(qq, kk_, uu);        /* the verdict is the oracle's, not the library's: only the output bytes steer the search */
+              if (!memcmp(qq, uu, 32)) { hit = 1; rec_sm(kk_, uu); }
+              else if (v == 255 || (j == 31 && v == 127)) { uu[j] = 9; rec_sm(kk_, uu); } } } }
     /* every API built on X25519 reports failure exactly when the shared point is all-zero: the special encodings (low
      * order, non-canonical, either top bit) and random keys as the peer's public key of box (both ciphers; easy, detached,
      * open, precomputation), sealed boxes (both ciphers) and key exchange (either role). rets = return codes in that order. */
